@@ -422,6 +422,29 @@ class Ctx:
         for n in ne:
             ne_names.add(str(n))
             ne_names.add(str(-n))
+        # `s.get(i)` is Some: i indexes an element that exists in memory, so i < isize::MAX (and i < len(s) for a
+        # sequence that is not modified afterwards)
+        for a_ in other:
+            if a_[0] == "some" and len(a_) > 2:
+                g_ = a_[2]
+                while g_[0] in ("ref", "deref"):
+                    g_ = g_[1]
+                if g_[0] == "call" and short(g_[1]) in ("<impl [T]>::get", "Vec::<T, A>::get") and len(g_[2]) == 2:
+                    pi_ = sy.poly(g_[2][1])
+                    if pi_ is not None:
+                        add(Poly.const((1 << 63) - 2) - pi_)
+                        add(pi_)
+                        sq_ = g_[2][0]
+                        while sq_[0] in ("ref", "deref"):
+                            sq_ = sq_[1]
+                        while sq_[0] == "call" and short(sq_[1]) in ("Deref::deref", "Vec::<T, A>::as_slice") and len(sq_[2]) == 1:
+                            sq_ = sq_[2][0]
+                            while sq_[0] in ("ref", "deref"):
+                                sq_ = sq_[1]
+                        if not stateful(sq_):
+                            ln_ = seq_len_poly(self, sq_)
+                            if ln_ is not None:
+                                add(ln_ - Poly.const(1) - pi_)
         # integers: p != 0 together with p >= 0 (p <= 0) is p >= 1 (p <= -1)
         for n in ne:
             try:
